@@ -50,7 +50,8 @@ def run(ctx):
                 f"in sorted, reversed, rotated order, bound key-sorted as cascade documents; (5) one callable "
                 f"OBJECT shared by two nodes (and by all cases of the run) that declare 1 / 2 / 3 / 11 outputs or other output names, in "
                 f"both orders; (6) hand-built jobs (TaskBuilder.from_callable + with_values, raw TaskInstance) with keyword / positional edges "
-                f"into parameters that also hold a static value (recorded default, 99, None, 0): the upstream value must win; constants {consts}; "
+                f"into parameters that also hold a static value (recorded default, 99, None, 0): the upstream value must win; (7) one upstream value (ordinary / None / 0 / '' / False; plain or yielded) consumed by two tasks and by two "
+                f"parameters of one task, tasks placed each on its own worker / all on one / consumers together (one real Memory per worker); constants {consts}; "
                 "non-trivial = the graph has an edge; graphs are built with fluent.Node/Payload/Action, lowered by graph2job, "
                 "every task run by execute_sequence/run/Memory over a dict-backed shm; TLC evaluates Lowering!Post",
         "clauses": ["tasks_are_not_the_nodes", "edges_are_not_the_inputs", "outputs_are_not_the_declared",
@@ -71,5 +72,5 @@ def run(ctx):
     ctx.assumptions += ["bounded domain as stated in `rule`; inputs are referenced positionally (an input name occurs at most once "
                         "in args; keyword arguments are static, as in the fluent API); callables are pure recording functions whose "
                         "parameters all default to a value outside the domain, so a dropped/defaulted argument is observable",
-                        "shm is a dict-backed stand-in (serde and Memory are the real ones); tasks run one at a time in a "
-                        "topological order"]
+                        "shm is a dict-backed stand-in (serde and Memory are the real ones, one Memory per worker for all its tasks); "
+                        "tasks run one at a time in a topological order"]
